@@ -52,5 +52,7 @@ def set_scales(model, in_scale=0.05, out_scale=0.07):
 
     for m in model.modules():
         if isinstance(m, QModuleMixin):
-            m.input_scale = torch.tensor(in_scale, dtype=m.input_scale.dtype)
-            m.output_scale = torch.tensor(out_scale, dtype=m.output_scale.dtype)
+            # as calibration leaves them: in the dtype of the module's activations (absmax_scale returns the input dtype)
+            dt = m.weight.dtype if m.weight is not None else m.input_scale.dtype
+            m.input_scale = torch.tensor(in_scale, dtype=dt)
+            m.output_scale = torch.tensor(out_scale, dtype=dt)
